@@ -69,6 +69,14 @@ func Copy(ctx context.Context, dst, src ObjectHandle) error {
 	}
 	defer reader.Close()
 
+	if srcFS, ok := src.(*FSObject); ok {
+		if dstFS, ok := dst.(*FSObject); ok && srcFS.filename == dstFS.filename {
+			// Copying an object onto itself: creating the writer would
+			// truncate the file that is being read.
+			return nil
+		}
+	}
+
 	writer, err := dst.NewWriter(ctx)
 	if err != nil {
 		return fmt.Errorf("failed to create writer for destination: %w", err)
